@@ -14,6 +14,7 @@ Coin(n) == RandomElement(1..n) = 1
 
 Mach == cfg.level = "machine"
 Reac == cfg.level = "reactor"
+Fol  == cfg.level = "follower"
 Loc  == cfg.local
 
 Quorums == {q \in ISRs \X MinISRs : q[2] >= 1 /\ q[2] <= Cardinality(q[1])}
@@ -101,11 +102,77 @@ SimAppend ==
   \/ \E mode \in Pick(Modes), n \in Pick(Counts \ {0}) : AppendReq(nextOp, mode, n)
   \/ \E n \in Pick(Counts \ {0}) : AppendReq(nextOp, "quorum", n)
 
+-------------------------------------------------------------------------------
+\* Follower level.  The reference fence is the one the runtime has, or is loading.
+Ref == IF fx.phase = "loaded" THEN [epoch |-> m.epoch, lepoch |-> m.lepoch, leader |-> m.leader]
+       ELSE IF fx.phase = "loading" THEN [epoch |-> fx.lmeta.epoch, lepoch |-> fx.lmeta.lepoch, leader |-> fx.lmeta.leader]
+       ELSE [epoch |-> 1, lepoch |-> 0, leader |-> 0]
+FNext == {<<Ref.epoch, Ref.lepoch + 1>>, <<Ref.epoch, Ref.lepoch + 1>>, <<Ref.epoch + 1, 1>>}
+FQuorums(ld) == {q \in Quorums : ld \in q[1]}
+FMk(e, le, ld, q, rg) == WithRG(Mk(e, le, ld, {1, 2, 3}, q, "active"), rg)
+Others == Leaders \ {Loc}
+
+SimFMeta ==
+  \* the next fence under another node's leadership (the local node follows)
+  \/ \E f \in Pick(FNext), ld \in Pick(Others), rg \in Pick(RGens) : \E q \in Pick(FQuorums(ld)) :
+        FMeta(FMk(f[1], f[2], ld, q, rg))
+  \/ \E f \in Pick(FNext), ld \in Pick(Others \ {Ref.leader}), rg \in Pick(RGens) : \E q \in Pick(FQuorums(ld)) :
+        (fx.ck.on \/ fx.aps # {}) /\ FMeta(FMk(f[1], f[2], ld, q, rg))   \* while a checkpoint / apply is in flight
+  \/ \E f \in Pick(FNext), ld \in Pick(Others \ {Ref.leader}), rg \in Pick(RGens) : \E q \in Pick(FQuorums(ld)) :
+        fx.ck.on /\ FMeta(FMk(f[1], f[2], ld, q, rg))
+  \* the next fence with the local node as leader (always in quorum mode, sometimes otherwise)
+  \/ \E f \in Pick(FNext), rg \in Pick(RGens) : \E q \in Pick(FQuorums(Loc)) :
+        (cfg.qlog \/ Coin(3)) /\ FMeta(FMk(f[1], f[2], Loc, q, rg))
+  \* same fence, same leader: refreshed membership or route generation
+  \/ \E rg \in Pick(RGens) : \E q \in Pick(FQuorums(Ref.leader)) :
+        Ref.leader # 0 /\ Coin(2) /\ FMeta(FMk(Ref.epoch, Ref.lepoch, Ref.leader, q, rg))
+  \* same fence, another leader (must be refused, also while the store load is in flight)
+  \/ \E ld \in Pick(Leaders \ {Ref.leader}), rg \in Pick(RGens) : \E q \in Pick(FQuorums(ld)) :
+        Ref.leader # 0 /\ (fx.phase = "loading" \/ Coin(3)) /\ FMeta(FMk(Ref.epoch, Ref.lepoch, ld, q, rg))
+  \* an older fence
+  \/ \E ld \in Pick(Leaders), rg \in Pick(RGens) : \E q \in Pick(FQuorums(ld)) :
+        Ref.lepoch > 1 /\ Coin(3) /\ FMeta(FMk(Ref.epoch, Ref.lepoch - 1, ld, q, rg))
+
+\* answers of a leader that keep the follower's watermarks in order (see EnvHW)
+Answers == {t \in (0..2) \X (0..MaxOff) \X (0..MaxOff) :
+              /\ t[2] <= t[3] /\ t[3] >= m.leo + t[1] /\ t[3] <= m.leo + t[1] + 1
+              /\ EnvHW(IF t[1] = 0 THEN Min2(m.leo, t[2]) ELSE Min2(Max2(fx.sleo, m.leo + t[1]), t[2]))}
+CurPull == fx.phase = "loaded" /\ Fc(m) \in fx.pulls /\ FolActive(m) /\ fx.rs = "pulling"
+Installs == {t \in (0..MaxOff) \X (0..MaxOff) : t[2] <= t[1] /\ EnvHW(t[2])}
+
+SimFDone ==
+  \/ LoadDone(FALSE)
+  \/ Coin(6) /\ LoadDone(TRUE)
+  \/ \E t \in PickOr(Answers, <<0, 0, 0>>) : CurPull /\ Answers # {} /\ PullResp(Fc(m), t[1], t[2], t[3])
+  \* a caught-up follower learning a higher committed watermark (arms the checkpoint)
+  \/ \E t \in PickOr({u \in Answers : u[1] = 0 /\ u[3] = m.leo /\ u[2] > m.hw}, <<0, 0, 0>>) :
+        CurPull /\ t # <<0, 0, 0>> /\ PullResp(Fc(m), t[1], t[2], t[3])
+  \/ \E t \in PickOr({u \in Answers : u[1] > 0}, <<0, 0, 0>>) :
+        CurPull /\ t # <<0, 0, 0>> /\ PullResp(Fc(m), t[1], t[2], t[3])
+  \* an answer to a pull of an earlier fence
+  \/ \E f \in PickOr(fx.pulls \ {Fc(m)}, Fc(m)) : f \in fx.pulls /\ f # Fc(m) /\ PullResp(f, 1, 1, 1)
+  \/ \E a \in PickOr(fx.aps, [epoch |-> 0, lepoch |-> 0]) :
+        fx.aps # {} /\ ApplyDone([epoch |-> a.epoch, lepoch |-> a.lepoch])
+  \/ Coin(5) /\ Tick
+  \/ fx.rs \in {"parked", "lagging"} /\ Tick
+  \/ fx.rs = "parked" /\ fx.due /\ Tick
+  \/ CkptDone(FALSE)
+  \/ Coin(4) /\ CkptDone(TRUE)
+  \/ \E t \in PickOr(Installs, <<0, 0>>), i \in PickOr(fx.insts, [tok |-> 0]) :
+        fx.insts # {} /\ Installs # {} /\ InstallDone(i.tok, t[1], t[2], FALSE)
+  \/ \E i \in PickOr(fx.insts, [tok |-> 0]) : fx.insts # {} /\ Coin(4) /\ InstallDone(i.tok, 0, 0, TRUE)
+
+\* nothing is outstanding: only new metadata can move the runtime
+Quiet == /\ fx.phase # "loading" /\ fx.pulls = {} /\ fx.aps = {} /\ ~fx.ck.on /\ fx.insts = {}
+         /\ fx.rs \notin {"parked", "lagging"}
+
 SimStep ==
-  \/ SimMeta
+  \/ ~Fol /\ SimMeta
   \/ Mach /\ (SimPropose \/ SimStored \/ SimQuorum \/ SimOther)
   \/ Reac /\ SimAppend
-  \/ SimAck
+  \/ ~Fol /\ SimAck
+  \/ Fol /\ (Quiet \/ Coin(3)) /\ SimFMeta
+  \/ Fol /\ SimFDone
 
 SimNext == SimStep /\ hist' = Append(hist, [ev |-> ev', st |-> Proj'])
 Emit    == Len(hist) = Depth + 1 => PrintT("BEH " \o ToJson([steps |-> hist]))
